@@ -30,7 +30,7 @@ theorem spliceOut_root_inv {f : Forest} (hi : f.Inv) {x : Nat} {L : List HTree} 
   apply hi.with_roots _ [x]
   · unfold allHandles
     rw [lc.eq]
-    simp only [plug_nil, fi_handlesList_append, handlesList_cons, fi_handles_eq T, lc.hk, List.append_assoc,
+    simp only [plug_nil, fi_handlesList_append, fi_handlesList_cons, fi_handles_eq T, lc.hk, List.append_assoc,
       List.cons_append]
     refine List.Perm.append_left _ ?_
     -- R ++ (kids ++ [x])  ~  x :: (kids ++ R)
